@@ -251,7 +251,7 @@ def build_case(run, spec):
     ht = rng.uniform(1.2, 5.0) if rng.random() < 0.8 else rng.uniform(5.0, 9.0)
     w, h = min(wt * sx, W * 0.9), min(ht * sy, H * 0.9)
     r = rng.random()
-    if r < 0.2:     # pokes over the grid border
+    if r < 0.25 and gname not in POW2_GRIDS:     # pokes over the border of a regional grid
         cx = rng.choice([gb[0] + w * rng.uniform(0.1, 0.6), gb[2] - w * rng.uniform(0.1, 0.6)])
         cy = rng.choice([gb[1] + h * rng.uniform(0.1, 0.6), gb[3] - h * rng.uniform(0.1, 0.6)])
     else:
@@ -283,6 +283,8 @@ def build_case(run, spec):
             wpx = rng.choice([6, 12, 40, 120])
             region[0], region[2] = bx - wpx * px / 2, bx + wpx * px / 2
             coarse = {'zc': zc, 'width_px': wpx}
+    if gname in POW2_GRIDS:      # stay inside the world: coordinates beyond it are not valid input
+        region = [max(region[0], gb[0]), max(region[1], gb[1]), min(region[2], gb[2]), min(region[3], gb[3])]
     region = [float(v) for v in region]
 
     # coverage configuration
@@ -696,6 +698,32 @@ def geo_class(U, C, res, lo, hi, slack):
     return 'band'
 
 
+def coarse_inset_level(model, gsizes, meta, cb, coord, upto):
+    """Mechanism classifier (not part of the verdict): the tile walk descends from level 0 and at every level L
+    keeps only the (meta) tile columns/rows between the tiles that contain (coverage bbox min + res_L/10) and
+    (coverage bbox max - res_L/10).  Returns the first level L < upto at which this range is empty ('empty')
+    or does not contain the tile `coord` (L), else None."""
+    if coord is not None:
+        r = model.tile_rect(*coord)
+        px, py = (r[0] + r[2]) / 2, (r[1] + r[3]) / 2
+    for L in range(upto):
+        d = model.res[L] / 10
+        ax, ay = model.tile_index(cb[0] + float(d), cb[1] + float(d), L)
+        bx, by = model.tile_index(cb[2] - float(d), cb[3] - float(d), L)
+        if model.ul:
+            ay, by = by, ay
+        if ax > bx or ay > by:
+            return 'empty', L
+        if coord is None:
+            continue
+        mx = min(meta[0], gsizes[L][0])
+        my = min(meta[1], gsizes[L][1])
+        tx, ty = model.tile_index(px, py, L)
+        if not (ax // mx * mx <= tx <= bx // mx * mx + mx - 1 and ay // my * my <= ty <= by // my * my + my - 1):
+            return 'excluded', L
+    return None, None
+
+
 # ---- execution -------------------------------------------------------------------------------------------------
 
 def execute(run, case):
@@ -1026,9 +1054,14 @@ def _execute(run, case, d):
         summary['task_remove_all'] = task.remove_all
     summary['oracle_T'] = [T_lo, T_hi]
 
+    cb = hi.bounds if hi is not None else None
     if exc is not None:
-        run.violation(mech('exception', exc=type(exc[0]).__name__, cov=case['cov_class']), case,
-                      "cleanup raised %r\ntask: %s\n%s" % (exc[0], summary, exc[1]))
+        m = mech('exception', exc=type(exc[0]).__name__)
+        if strategy == 'tile_walk' and cb is not None:
+            k_, L_ = coarse_inset_level(model, gsizes, case['meta'], cb, None, max(sel) + 1)
+            m['coarse_level_range_empty'] = k_ == 'empty'
+            summary['coarse_level_range_empty_at'] = L_
+        run.violation(m, case, "cleanup raised %r\ntask: %s\n%s" % (exc[0], summary, exc[1]))
 
     # -- observe: raw listing first (the API may create files), then a fresh cache object
     kind1, raw1 = raw_listing(backend, main_path, table)
@@ -1083,8 +1116,14 @@ def _execute(run, case, d):
                 if exc is not None:
                     continue      # the escaped exception is the finding; survivors are its consequence
                 if p_api or p_raw:
-                    run.violation(mech('must_remove_tile_survived', cov=case['cov_class'],
-                                       two_digit_level=z >= 10, rb=rb['kind']), case,
+                    m = mech('must_remove_tile_survived')
+                    if strategy == 'directory_walk':
+                        m['two_digit_level'] = z >= 10
+                    elif strategy == 'tile_walk' and cb is not None:
+                        k_, L_ = coarse_inset_level(model, gsizes, case['meta'], cb, coord, z)
+                        m['coarse_level_inset'] = k_ is not None
+                        why['lost_at_coarser_level'] = L_
+                    run.violation(m, case,
                                   "tile %s should have been removed but is still there: %s\nmeta rect %s, task: %s"
                                   % (coord, why, U, summary))
             else:
@@ -1095,8 +1134,7 @@ def _execute(run, case, d):
                 if rejected is not None:
                     reason = 'task_rejected'
                 if not p_api or p_raw is False:
-                    run.violation(mech('must_keep_tile_removed', reason=reason, cov=case['cov_class'],
-                                       rb=rb['kind']), case,
+                    run.violation(mech('must_keep_tile_removed', reason=reason), case,
                                   "tile %s must be kept (%s) but is gone: %s\nmeta rect %s, task: %s"
                                   % (coord, reason, why, U, summary))
                 elif data != e['data']:
@@ -1111,7 +1149,7 @@ def _execute(run, case, d):
         run.hit('foreign_files_checked')
         cls = where.get(p, 'config')
         if not (os.path.exists(p) or os.path.islink(p)):
-            run.violation(mech('foreign_file_removed', where=cls, rb=rb['kind']), case,
+            run.violation(mech('foreign_file_removed', where=cls), case,
                           "foreign file %s (%s) was removed\ntask: %s" % (os.path.relpath(p, d), cls, summary))
         elif file_sig(p) != sig:
             run.violation(mech('foreign_file_modified', where=cls), case,
@@ -1152,7 +1190,7 @@ def gen_cases(run):
                     force['levels_conf'] = [1, 2, 10]
                 yield {'i': i, 'backend': b, 'layout': lay, 'force': force}
                 i += 1
-    n = run.pick(34, 600)
+    n = run.pick(100, 3000)
     for r in range(n):
         for b, lay in cfgs:
             yield {'i': i, 'backend': b, 'layout': lay}
